@@ -281,6 +281,14 @@ func genC15(t *rapid.T, p *gen.Profile) *C15Case {
 	}
 	f0 := ws.Files[0].Journal
 	f0.Entries = append(f0.Entries, m.Entry{Tx: tx, Blank: 1})
+	// ... and one in commodities whose names differ only in case: the order in which the message names
+	// them must not come from a map
+	txc := gen.GenTx(t, p, pools, gen.TxOpts{MaxPostings: 0})
+	txc.Body = nil
+	for i, s := range rapid.Permutation([]string{"qqq", "QQQ", "Qqq", "qQq"}).Draw(t, "casesyms") {
+		txc.Body = append(txc.Body, m.BodyItem{P: &m.Posting{Account: pools.Accounts[i%len(pools.Accounts)], Amt: &m.Amount{Q: m.Num{Mant: fmt.Sprint(i + 1)}, Sym: s, SymSpace: true}, Indent: "    ", Sep: "  "}})
+	}
+	f0.Entries = append(f0.Entries, m.Entry{Tx: txc, Blank: 1})
 	// a payee and a commodity format that only the included files know, each file differently: whose
 	// template / format is used must not depend on anything but the include directives
 	for i := 1; i < len(ws.Files); i++ {
